@@ -5,6 +5,7 @@ import (
 	"go/token"
 	"go/types"
 	"sort"
+	"strings"
 
 	"golang.org/x/tools/go/ssa"
 )
@@ -27,6 +28,7 @@ func runC20(c *Ctx) {
 	c20SameMux(c)
 	c13WritePath(c, "C20")
 	c20AnyOutermost(c)
+	c20WhoamiExact(c)
 }
 
 // c20AnyOutermost implements C20.any-outermost: the chain is built inside out (each new handler's Next is the previous
@@ -586,4 +588,68 @@ func addrRootedAt(addr ssa.Value, root ssa.Value) bool {
 		return false
 	}
 	return walk(addr, 0)
+}
+
+// c20WhoamiExact implements C20.whoami-exact. The whoami handler sits in front of the database and answers queries for
+// ONE configured name itself; every other name must reach the database handler unchanged. If the gate is anything
+// looser than equality with the configured name (round-6 seed c20m: strings.HasSuffix, "to allow cache-busting
+// labels"), names of the data file that merely end in that string are answered by whoami instead of from the
+// database. Decided on SSA in (*whoami.Handler).ServeDNS: the value of the configured-domain field is an operand of
+// at least one string equality (== / != / strings.EqualFold) and of no partial match (HasSuffix, HasPrefix,
+// Contains*, Index*, dns.IsSubDomain, dns.CompareDomainName).
+func c20WhoamiExact(c *Ctx) {
+	rule := "C20.whoami-exact"
+	c.Rule(rule, "A8 on SSA in (*whoami.Handler).ServeDNS: the configured whoami domain is compared with the question name by equality only; no prefix/suffix/sub-domain match takes it as an argument")
+	fn := c.Func("whoami", "(*Handler).ServeDNS")
+	fDom := c.Field("whoami", "Handler", "whoamiDomain")
+	c.Examined(fn)
+	fromDom := func(v ssa.Value) bool {
+		for x := range backSlice(v, nil) {
+			if u, ok := x.(*ssa.UnOp); ok && u.Op == token.MUL {
+				if fa, ok := u.X.(*ssa.FieldAddr); ok && fieldOf(fa) == fDom {
+					return true
+				}
+			}
+		}
+		return false
+	}
+	eq := 0
+	var partial []string
+	for _, b := range fn.Blocks {
+		for _, in := range b.Instrs {
+			switch x := in.(type) {
+			case *ssa.BinOp:
+				if (x.Op == token.EQL || x.Op == token.NEQ) && isStringType(x.X.Type()) && (fromDom(x.X) || fromDom(x.Y)) {
+					eq++
+				}
+			case *ssa.Call:
+				f := calleeOf(x.Common())
+				if f == nil || f.Pkg() == nil {
+					continue
+				}
+				uses := false
+				for _, a := range x.Common().Args {
+					if isStringType(a.Type()) && fromDom(a) {
+						uses = true
+					}
+				}
+				if !uses {
+					continue
+				}
+				nm := f.Name()
+				switch {
+				case nm == "EqualFold" || nm == "Equal":
+					eq++
+				case strings.HasPrefix(nm, "HasSuffix"), strings.HasPrefix(nm, "HasPrefix"), strings.HasPrefix(nm, "Contains"), strings.HasPrefix(nm, "Index"), strings.HasPrefix(nm, "LastIndex"), nm == "IsSubDomain", nm == "CompareDomainName", strings.HasPrefix(nm, "TrimSuffix"), strings.HasPrefix(nm, "CutSuffix"):
+					partial = append(partial, fmt.Sprintf("%s.%s at %s", f.Pkg().Name(), nm, c.relPos(x.Pos())))
+				}
+			}
+		}
+	}
+	c.Check(rule, fnName(fn)+"|gate-is-equality", eq > 0 && len(partial) == 0, fn.Pos(), fmt.Sprintf("%d equality comparisons with the configured domain; partial matches: %v", eq, partial))
+}
+
+func isStringType(t types.Type) bool {
+	b, ok := t.Underlying().(*types.Basic)
+	return ok && b.Info()&types.IsString != 0
 }
